@@ -29,6 +29,8 @@ import (
 	"github.com/daeuniverse/dae/component/sniffing"
 	"github.com/daeuniverse/dae/control"
 	"github.com/daeuniverse/dae/verifx/vlib"
+	"github.com/daeuniverse/dae/verifx/vsched"
+	"github.com/daeuniverse/dae/verifx/vtime"
 )
 
 // ---------------------------------------------------------------------------------------------
@@ -535,7 +537,7 @@ func main() {
 	r.Set("strings_leg_B", len(stringsB))
 	r.Set("max_len_leg_A", lenA)
 	r.Set("max_len_leg_B", lenB)
-	r.Rule(fmt.Sprintf("full product of 4 dial modes x outbound index x dst {v4,v6,v4-mapped} x port {1,443,65535} x sniffed string, where the strings are a de-duplicated set of %d named forms plus every string of length<=%d (leg A: ChooseDialTarget) / <=%d (leg B: routeDial + chooseProxyDialer, tcp and udp) over {a . : [ ] 1}; leg A additionally sweeps all 256 outbound indices over the named forms; leg D sends every leg-A string as the Host field of an HTTP request through the real sniffer in front of ChooseDialTarget (2 outbounds); leg E runs the named forms after every history of length<=3 (quick) / <=4 (thorough) over {seed, reload-by-cache-replay, reload-by-store-reuse}; leg C runs, per (mode, outbound, dst, port), the 9 per-family probe outcomes {addr,nodata,error}^2 as flow 1 -> background verification probe -> flow 2 on a fresh name. A case is (leg, history, mode, outbound, dst, port, network, string); it is non-trivial when the string is non-empty; distinct_nontrivial is counted from the de-duplicated string set per distinct (leg, mode, outbound, dst, port, network) cell (cells are checked for uniqueness)", len(named), lenA, lenB))
+	r.Rule(fmt.Sprintf("full product of 4 dial modes x outbound index x dst {v4,v6,v4-mapped} x port {1,443,65535} x sniffed string, where the strings are a de-duplicated set of %d named forms plus every string of length<=%d (leg A: ChooseDialTarget) / <=%d (leg B: routeDial + chooseProxyDialer, tcp and udp) over {a . : [ ] 1}; leg A additionally sweeps all 256 outbound indices over the named forms; leg D sends every leg-A string as the Host field of an HTTP request through the real sniffer in front of ChooseDialTarget (2 outbounds); leg E runs the named forms after every history of length<=3 (quick) / <=4 (thorough) over {seed, reload-by-cache-replay, reload-by-store-reuse}; leg F runs every history of length<=3 (quick) / <=4 (thorough) over {resolve with TTL 10 s/60 s under a scoped/bare key, advance the virtual clock by 9.999 s / 2 ms / 55 s, reload by replay / by reuse} and then queries domain mode for the name, a case variant and another name on a v4 and a v6 destination; leg C runs, per (mode, outbound, dst, port), the 9 per-family probe outcomes {addr,nodata,error}^2 as flow 1 -> background verification probe -> flow 2 on a fresh name. A case is (leg, history, mode, outbound, dst, port, network, string); it is non-trivial when the string is non-empty; distinct_nontrivial is counted from the de-duplicated string set per distinct (leg, mode, outbound, dst, port, network) cell (cells are checked for uniqueness)", len(named), lenA, lenB))
 
 	evals := r.Counter("evaluations")
 	distinct := r.Counter("distinct_nontrivial")
@@ -1133,6 +1135,177 @@ func main() {
 		}
 	})
 
+	// ---------------- leg F: histories with TIME (virtual clock) ----------------
+	// control/dns_control.go, dns_cache.go and dns_control_optimistic.go are compiled with their clock, locks,
+	// goroutines and timers on the virtual clock of vsched (check.json "instrument"); each history runs inside one
+	// vsched.Run, where vtime.Sleep advances the clock (firing the controller's janitor/evictor tickers in order).
+	// Ops: resolve the name through dae with TTL short/long under a scoped/bare response key, advance the clock by
+	// one of three steps (to 1 ms before the short TTL would end, 2 ms more, 55 s), reload (replay / reuse).
+	// Reference: the name is known at time t iff some resolution through dae has not expired at t (max over resolutions).
+	const (
+		ttlShort  = 10
+		ttlLong   = 60
+		timedName = "timed.example"
+	)
+	type opF struct {
+		kind   string // "res", "adv", "Rr", "Ru"
+		ttl    uint32
+		scoped bool
+		d      time.Duration
+	}
+	opsF := []opF{
+		{kind: "res", ttl: ttlShort, scoped: true}, {kind: "res", ttl: ttlLong, scoped: true},
+		{kind: "res", ttl: ttlShort, scoped: false}, {kind: "res", ttl: ttlLong, scoped: false},
+		{kind: "adv", d: ttlShort*time.Second - time.Millisecond}, {kind: "adv", d: 2 * time.Millisecond}, {kind: "adv", d: 55 * time.Second},
+		{kind: "Rr"}, {kind: "Ru"},
+	}
+	opName := func(o opF) string {
+		switch o.kind {
+		case "res":
+			k := "bare"
+			if o.scoped {
+				k = "scoped"
+			}
+			return fmt.Sprintf("resolve(ttl=%ds,%s)", o.ttl, k)
+		case "adv":
+			return "+" + o.d.String()
+		}
+		return o.kind
+	}
+	maxF := 3
+	if r.Thorough() {
+		maxF = 4
+	}
+	var historiesF [][]opF
+	var recF func(cur []opF)
+	recF = func(cur []opF) {
+		if len(cur) > 0 {
+			historiesF = append(historiesF, append([]opF(nil), cur...))
+		}
+		if len(cur) == maxF {
+			return
+		}
+		for _, o := range opsF {
+			recF(append(cur, o))
+		}
+	}
+	recF(nil)
+	r.Set("histories_leg_F", len(historiesF))
+	cKnownT := r.Counter("legF_known_at_query_time")
+	cExpiredT := r.Counter("legF_resolved_but_expired_at_query_time")
+	cRefreshWindow := r.Counter("legF_known_only_by_a_later_resolution")
+	timedSniffs := []string{timedName, "Timed.Example.", "other.example"}
+	timedDsts := []netip.AddrPort{netip.AddrPortFrom(dsts[0].addr, 443), netip.AddrPortFrom(dsts[1].addr, 443)}
+	for hi, hF := range historiesF {
+		if r.OverBudget(150*time.Second, 12*time.Minute) {
+			r.CapHit("leg F time budget")
+			break
+		}
+		var names []string
+		for _, o := range hF {
+			names = append(names, opName(o))
+		}
+		hs := strings.Join(names, " ; ")
+		type obsF struct {
+			dst             netip.AddrPort
+			s, target       string
+			reroute, dialIp bool
+		}
+		var got []obsF
+		var expiries []int64 // reference: end of validity of every resolution (virtual ns)
+		var tQuery int64
+		harnessErr := ""
+		res := vsched.Run(func() {
+			env, err := control.VerifC18NewEnv("domain", conf, []string{"g1", "g2"})
+			if err != nil {
+				harnessErr = err.Error()
+				return
+			}
+			for _, o := range hF {
+				switch o.kind {
+				case "res":
+					now := vtime.Now().UnixNano()
+					if err := env.LearnDNS(timedName, typeA, []string{"198.51.100.20"}, o.ttl, o.scoped); err != nil {
+						harnessErr = err.Error()
+					}
+					if err := env.LearnDNS(timedName, typeAAAA, []string{"2001:db8::20"}, o.ttl, o.scoped); err != nil {
+						harnessErr = err.Error()
+					}
+					expiries = append(expiries, now+int64(o.ttl)*int64(time.Second))
+				case "adv":
+					vtime.Sleep(o.d)
+				default:
+					how := "restore"
+					if o.kind == "Ru" {
+						how = "reuse"
+					}
+					ne, err := env.Reload("domain", conf, []string{"g1", "g2"}, how)
+					if err != nil {
+						harnessErr = err.Error()
+						env.Close()
+						return
+					}
+					env = ne
+				}
+				vsched.Quiesce()
+			}
+			tQuery = vtime.Now().UnixNano()
+			for _, d := range timedDsts {
+				for _, sn := range timedSniffs {
+					t, rr, di := env.Choose(2, d, sn)
+					got = append(got, obsF{d, sn, t, rr, di})
+				}
+			}
+			env.Close()
+		}, vsched.Options{MaxSteps: 1 << 22, HorizonNs: int64(2 * time.Hour)})
+		if harnessErr != "" {
+			r.Violation("harness: leg F: "+harnessErr+" in history "+hs, nil)
+			continue
+		}
+		switch res.Status {
+		case vsched.StPanic:
+			r.Violation(fmt.Sprintf("leg=F history=[%s] panic at %s", hs, vlib.PanicSite(res.PanicMsg)), res.PanicMsg)
+			continue
+		case vsched.StHorizon, vsched.StDiverged:
+			fmt.Fprintf(os.Stderr, "C18: leg F execution did not finish (status %d) for [%s]\n", res.Status, hs)
+			os.Exit(2)
+		}
+		known, knownByLater := false, false
+		for k, e := range expiries {
+			if e > tQuery {
+				known = true
+				if k > 0 && expiries[0] <= tQuery {
+					knownByLater = true
+				}
+			}
+		}
+		if known {
+			cKnownT.Add(1)
+			if knownByLater {
+				cRefreshWindow.Add(1)
+			}
+		} else if len(expiries) > 0 {
+			cExpiredT.Add(1)
+		}
+		for _, g := range got {
+			evals.Add(1)
+			distinct.Add(1)
+			w := wantIP
+			if known && canon(g.s) == timedName {
+				w = wantName
+				if g.s != timedName {
+					w = wantEither
+				}
+			}
+			if why := judgeW(w, "domain", g.dst, g.s, g.target, g.dialIp); why != "" && lim.ok("F-target", 6) {
+				r.Violation(fmt.Sprintf("leg=F history=[%s] query at +%v mode=domain ob=2 dst=%v sniffed=%q got=%q dialIp=%v: %s", hs, time.Duration(tQuery-1_700_000_000_000_000_000), g.dst, g.s, g.target, g.dialIp, why),
+					map[string]any{"history": names, "query_at_ns": tQuery, "resolution_expiries_ns": expiries, "dst": g.dst.String(), "sniffed": g.s, "target": g.target, "why": why})
+			}
+			outcomeKinds.Store(fmt.Sprintf("F|known=%v|later=%v|%s|tgtIsIP=%v", known, knownByLater, g.s, checkIPTarget(g.dst, g.target, true) == ""), true)
+		}
+		_ = hi
+	}
+
 	nk := 0
 	outcomeKinds.Range(func(_, _ any) bool { nk++; return true })
 	r.Set("distinct_outcome_kinds", nk)
@@ -1159,6 +1332,7 @@ func main() {
 	r.Assume("leg C waits for the background probe by polling the stub's call counter and joining the probe's singleflight slot; the wall clock is used for that synchronisation only (a probe that never shows up within 60 s leaves flow 2 unjudged and clears 'exhaustive')")
 	r.Assume("leg D feeds the value as the Host field of an HTTP request through sniffing.Sniffer.SniffTcp (packet sniffer, i.e. the whole request is available at once; sniffGroup -> NormalizeDomain) and treats a sniffing error as 'no name' like handleConn does; the reference is applied to the field value as the client wrote it (surrounding white space removed); a value that is empty after removing the trailing dot counts as 'no name or that name'")
 	r.Assume("leg E: a reload is a new ControlPlane literal (fresh real-domain set and negative cache) whose DNS state is carried over either by cloneDnsCache + replayDnsReloadCache (RestoreReloadCache into a fresh DnsController) or by DnsController.ReuseForReload (shared store). Names resolved through dae before a reload remain 'resolved through dae' (dae keeps answering them from the carried cache): strict. Names only verified by the probe before a reload: open (both outcomes accepted)")
+	r.Assume("leg F: control/dns_control.go, dns_cache.go and dns_control_optimistic.go run on the virtual clock of vsched (overlay instrumentation); the rest of package control (ChooseDialTarget itself, the real-domain caches) is not instrumented and does not read that clock on the paths of this leg. 'Resolved through dae' at time t = some answer for the name learned through NormalizeAndCacheDnsResp_ whose TTL has not run out at t (maximum over all resolutions, across reloads); no wall-clock reading enters the reference")
 	r.Assume("cells the statement leaves open accept both outcomes and are counted separately: case/trailing-dot variants of a known name, a known name that already carries a port, a name known only for the other address family or only by an empty (NODATA) answer — all in domain mode")
 	r.Assume("well-formedness of the target is demanded for sniffed values that are host names, IP literals (bare/bracketed) or host:port with a valid port; for other strings ('[', 'a]', 'a:', ':1' ...) only absence of panic and the IP cells are checked, malformed results are counted in obs_garbage_sniff_gives_malformed_target")
 	r.Assume("dialIp must be true when the target is the destination IP or a normalised bare/bracketed IP literal and false for a host name; for an IP literal that already carries a port the statement says nothing about the flag: counted in obs_ip_literal_with_port_dialIp_false")
